@@ -191,7 +191,20 @@ def replay(scn):
         else:
             lo, hi = A.cell_enc(t["lo"], dt), A.cell_enc(t["hi"], dt)
             vals.append(lo + (t["num"] / t["den"]) * (hi - lo))
-    for kind in ("i", "f"):
+    # variant "nanhi": the largest cell of the array holds NaN - a point exactly on a node reproduces that node's value whatever its
+    # neighbours hold (weight 0 does not bring the neighbour's NaN in); between nodes NaN propagates
+    nan_cell = max(a_abs["cells"]) if dt == "f" and len(a_abs["cells"]) >= 2 else None
+    vals_nan = []
+    for t, v in zip(exp["cells"], vals):
+        if t["k"] in ("left", "right") or nan_cell is None:
+            vals_nan.append(v)
+        elif t["num"] == 0:
+            vals_nan.append(np.nan if t["lo"] == nan_cell else A.cell_enc(t["lo"], dt))
+        elif t["num"] == t["den"]:
+            vals_nan.append(np.nan if t["hi"] == nan_cell else A.cell_enc(t["hi"], dt))
+        else:
+            vals_nan.append(np.nan if nan_cell in (t["lo"], t["hi"]) else v)
+    for kind in ("i", "f", "u"):
         codec = A.LabelCodec(mixed=True)
         kinds = ["i"] * len(a_abs["dims"])
         kinds[d] = kind
@@ -243,6 +256,19 @@ def replay(scn):
                 act = res.values.ravel().tolist()
                 if len(act) != len(vals) or not all(_close(x, y) for x, y in zip(vals, act)):
                     what = "values: expected %s got %s" % (vals, act)
+            if what is None and form == 0 and nan_cell is not None and not exp.get("err") and kind != "u":
+                a2 = a.copy()
+                for k, c in enumerate(a_abs["cells"]):
+                    if c == nan_cell:
+                        a2.values[np.unravel_index(k, a2.shape)] = np.nan
+                calls += 1
+                try:
+                    r2 = a2.interp_axis(newx, axis=ax, **kw)
+                    act2 = r2.values.ravel().tolist()
+                    if len(act2) != len(vals_nan) or not all(_close(x, y) for x, y in zip(vals_nan, act2)):
+                        what = "with NaN stored in one cell: values expected %s got %s" % (vals_nan, act2)
+                except Exception as e:  # noqa
+                    what = "with NaN stored in one cell: raised %s: %s" % (type(e).__name__, str(e)[:200])
             if what is None and a.ndim == 1:
                 xs = a.axes[0].values.astype(float)
                 o = np.argsort(xs)
